@@ -222,8 +222,8 @@ func (e *Engine) unblock(on interface{}) {
 func (e *Engine) spawn(fnv value, args []value) {
 	g := &gor{id: len(e.gors), label: len(e.gors), wake: make(chan struct{}, 1), exited: make(chan struct{})}
 	e.gors = append(e.gors, g)
-	if len(e.gors) > 64 {
-		e.abort("TRUNCATED more than 64 goroutines")
+	if len(e.gors) > 512 {
+		e.abort("TRUNCATED more than 512 goroutines")
 	}
 	go func() {
 		<-g.wake
